@@ -22,9 +22,23 @@ package bed
 // the record is the parse of one line of the stream: if the byte at p0 does not start an empty line or a comment,
 // that line starts at p0; it ends before the first LF (or CR LF, or the end of the stream)
 //@   let first := p0 < S.end && S.in[p0] != 10 && S.in[p0] != 13 && S.in[p0] != '#'
-//@   ensures @C04 first && result.1 == nil ==> p0 + len(line) <= S.end && forall j int :: 0 <= j && j < len(line) ==> line[j] == S.in[p0+j] && line[j] != 10
-//@   ensures @C04 first && result.1 == nil ==> p0 + len(line) == S.end || S.in[p0+len(line)] == 10 || (S.in[p0+len(line)] == 13 && (p0+len(line)+1 == S.end || S.in[p0+len(line)+1] == 10))
-//@   ensures @C04 first && result.1 == nil ==> S.pos == S.end || S.pos == p0 + len(line) + 1 || S.pos == p0 + len(line) + 2
+//@   ensures ioErr(result.1) ==> active0
+//@   let lineOK := first && !ioErr(result.1)
+//@   ensures @C04 lineOK ==> p0 + len(line) <= S.end && forall j int :: 0 <= j && j < len(line) ==> line[j] == S.in[p0+j] && line[j] != 10
+//@   ensures @C04 lineOK ==> p0 + len(line) == S.end || S.in[p0+len(line)] == 10 || (S.in[p0+len(line)] == 13 && (p0+len(line)+1 == S.end || S.in[p0+len(line)+1] == 10))
+//@   ensures @C04 lineOK ==> S.pos == S.end || S.pos == p0 + len(line) + 1 || S.pos == p0 + len(line) + 2
+//@   let FL0 := splitF(line, 9, 0)
+//@   let bcL := (splitN(line, 9) > 9 && splitF(line, 9, 9) != "") ? atoi(splitF(line, 9, 9)) : 0
+//@   let okL := 3 <= splitN(line, 9) && splitN(line, 9) <= 12 && (n0 == 0 || n0 == splitN(line, 9)) && atoiOK(splitF(line, 9, 1)) && atoiOK(splitF(line, 9, 2)) &&
+//@             (splitN(line, 9) > 4 && splitF(line, 9, 4) != "" ==> atoiOK(splitF(line, 9, 4))) &&
+//@             (splitN(line, 9) > 5 ==> splitF(line, 9, 5) == "" || splitF(line, 9, 5) == "+" || splitF(line, 9, 5) == "-" || splitF(line, 9, 5) == ".") &&
+//@             (splitN(line, 9) > 6 && splitF(line, 9, 6) != "" ==> atoiOK(splitF(line, 9, 6))) && (splitN(line, 9) > 7 && splitF(line, 9, 7) != "" ==> atoiOK(splitF(line, 9, 7))) &&
+//@             (splitN(line, 9) > 8 && splitF(line, 9, 8) != "" ==> splitN(splitF(line, 9, 8), ',') == 3 && puintOK(splitF(splitF(line, 9, 8), ',', 0)) && puintOK(splitF(splitF(line, 9, 8), ',', 1)) && puintOK(splitF(splitF(line, 9, 8), ',', 2))) &&
+//@             (splitN(line, 9) > 9 && splitF(line, 9, 9) != "" ==> atoiOK(splitF(line, 9, 9))) &&
+//@             (splitN(line, 9) > 10 && splitF(line, 9, 10) != "" ==> forall k int :: 0 <= k && k < splitN(splitF(line, 9, 10), ',') ==> atoiOK(splitF(splitF(line, 9, 10), ',', k))) &&
+//@             (splitN(line, 9) > 11 && splitF(line, 9, 11) != "" ==> forall k int :: 0 <= k && k < splitN(splitF(line, 9, 11), ',') ==> atoiOK(splitF(splitF(line, 9, 11), ',', k))) &&
+//@             ((splitN(line, 9) > 10 && splitF(line, 9, 10) != "") ? splitN(splitF(line, 9, 10), ',') : 0) == bcL && ((splitN(line, 9) > 11 && splitF(line, 9, 11) != "") ? splitN(splitF(line, 9, 11), ',') : 0) == bcL
+//@   ensures @C04 first && !active0 && okL ==> result.1 == nil
 //@   ensures @C04 n0 != 0 ==> r.n == n0
 //@   ensures @C04 result.1 == nil ==> r.n == splitN(line, 9)
 //@   let B := result.0
@@ -93,6 +107,17 @@ package bed
 //@   let B := result.0
 //@   ensures result.1 == nil <==> result.0 != nil
 //@   ensures result.1 == nil || localErr(result.1)
+// completeness: a line whose fields are well formed is accepted
+//@   let bcF := (n > 9 && F[9] != "") ? atoi(F[9]) : 0
+//@   let okF := 3 <= n && n <= 12 && atoiOK(F[1]) && atoiOK(F[2]) && (n > 4 && F[4] != "" ==> atoiOK(F[4])) &&
+//@             (n > 5 ==> F[5] == "" || F[5] == "+" || F[5] == "-" || F[5] == ".") &&
+//@             (n > 6 && F[6] != "" ==> atoiOK(F[6])) && (n > 7 && F[7] != "" ==> atoiOK(F[7])) &&
+//@             (n > 8 && F[8] != "" ==> splitN(F[8], ',') == 3 && puintOK(splitF(F[8], ',', 0)) && puintOK(splitF(F[8], ',', 1)) && puintOK(splitF(F[8], ',', 2))) &&
+//@             (n > 9 && F[9] != "" ==> atoiOK(F[9])) &&
+//@             (n > 10 && F[10] != "" ==> forall k int :: 0 <= k && k < splitN(F[10], ',') ==> atoiOK(splitF(F[10], ',', k))) &&
+//@             (n > 11 && F[11] != "" ==> forall k int :: 0 <= k && k < splitN(F[11], ',') ==> atoiOK(splitF(F[11], ',', k))) &&
+//@             ((n > 10 && F[10] != "") ? splitN(F[10], ',') : 0) == bcF && ((n > 11 && F[11] != "") ? splitN(F[11], ',') : 0) == bcF
+//@   ensures @C04 okF ==> result.1 == nil
 //@   ensures @C04 result.1 == nil ==> 3 <= n && n <= 12 && B.N == n
 //@   ensures @C04 result.1 == nil ==> B.Chrom == F[0]
 //@   ensures @C04 result.1 == nil ==> atoiOK(F[1]) && B.ChromStart == atoi(F[1])
